@@ -354,7 +354,7 @@ def judge(ctx, stream, cfg, case, res, newshare=None):
 
 def main(ctx):
     rng = ctx.rng
-    ctx.proof = common.check_proofs('C03')
+    ctx.proof = common.check_proofs('C03', extra_targets=['Model/StoreMpsCheck.vo'])
     mult = 3 if not ctx.proof.ok else 1
     nh = ctx.pick(600, 5000) * mult
     cases = [c['case'] for c in common.corpus_cases('C03') if c.get('stream') == 'history']
@@ -476,6 +476,9 @@ def main(ctx):
                 if m['psi0_changed'] or m['psi_changed']:
                     ctx.fail('oracle', '[%s] %s changed its start vector (%s) / the MPS (%s); the solver works on psi0.copy()' % (
                         cfg, name, m['psi0_changed'], m['psi_changed']), dict(info, solver=name), match_key='C03:krylov:%s:psi0-changed' % name)
+    # ---- MPS-level histories (constructor, get_B, set_B, measurements, in-place methods on returned tensors) <-> Model/StoreMps.v
+    import c03_mpshist
+    c03_mpshist.run_stream(ctx, mult=mult)
     ctx.assumptions += [
         'C03 store model (coq/Model/Store.v): ten heap transformers (new, copy deep/shallow, buffer-writing and rebinding in-place methods, '
         'iproject, unary copy-then-modify, scale_axis, add, tensordot); all other tenpy operations are mapped to the nearest of them in '
@@ -502,4 +505,7 @@ RULE = ('history: 6-12 steps over tensors of rank 1-4 (0-3 charges, both qconj, 
         '(np.shares_memory) and every new sharing that is not a documented shallow copy is probed by writing into the buffers.  '
         'mps: small MPS/MPO (finite and infinite; entangled or product state; stored in B, A, C, Th or per-site mixed forms); every accessor '
         '(get_B x 11 forms x copy x label_p, get_theta n=1,2,3 x formL x formR, get_SL/SR, get_W, get_rho_segment, copy, extract_segment) on '
-        'every site is compared memory-wise with all buffers stored in the network.')
+        'every site is compared memory-wise with all buffers stored in the network.  mps-history: 6-14 steps on an entangled MPS of 2-4 '
+        'sites built from the caller\'s tensors (random forms incl. non-canonical, random label orders; Sz / parity / no charge): 30 % get_B '
+        '(form, copy), 12 % set_B, 14 % measurements, 24 % in-place methods (70 % of them through an alias of a stored tensor), 20 % copies / '
+        'a*s / a+b; half of the histories in each configuration; non-trivial = an in-place step or a stored tensor changed.')
